@@ -14,10 +14,9 @@ Fixpoint concat_loop (bad : list string) (sep raw : string) (low : nat) (frags :
     match loads bad raw' with
     | IErr e => IErr e | IOut => IOut
     | IOk d =>
-      match measures_count d with
-      | Err e => IErr e
-      | Ok high => concat_loop bad sep raw' (S high) r (Some d) (acc ++ [(low, high)])%list
-      end
+      (* high_index = len(measure_start_tree_stages): 0 while no measure has started *)
+      let high := List.length (d_mst d) in
+      concat_loop bad sep raw' (S high) r (Some d) (acc ++ [(low, high)])%list
     end
   end.
 
